@@ -488,6 +488,15 @@ def round5():
         R("r5-mh-always-accept-uphill-only", "C16", "xitorch/_impls/integrate/mcsamples/mcmc.py", "            accept = log_rand[i] < logpratio", "            accept = False", "C16-S",
           note="a greedy walk: downhill moves are never accepted, the chain does not sample p"),
         R("r5-mh-restart-from-x0", "C16", "xitorch/_impls/integrate/mcsamples/mcmc.py", "    samples = _mh_sample(logpfcn, x, pparams, nsamples, step_size, True)", "    samples = _mh_sample(logpfcn, x0, pparams, nsamples, step_size, True)", ["C16-S", "C16-U"]),
+        # C16-W: _integrate on symbolic samples
+        R("r5-integrate-stack-sum-ok", "C16", "xitorch/integrate/mcquad.py", "    res = 0.0\n    for x, w in zip(xsamples, wsamples):\n        res = res + ffcn(x, *fparams) * w\n    return res",
+          "    terms = [w * ffcn(x, *fparams) for (x, w) in zip(xsamples, wsamples)]\n    return torch.stack(terms, dim=0).sum(dim=0)", expect="silent"),
+        R("r5-integrate-index-ok", "C16", "xitorch/integrate/mcquad.py", "    res = 0.0\n    for x, w in zip(xsamples, wsamples):\n        res = res + ffcn(x, *fparams) * w\n    return res",
+          "    res = 0.0\n    for i in range(nsamples):\n        res = res + wsamples[i] * ffcn(xsamples[i], *fparams)\n    return res", expect="silent"),
+        R("r5-integrate-weights-shifted", "C16", "xitorch/integrate/mcquad.py", "    res = 0.0\n    for x, w in zip(xsamples, wsamples):\n        res = res + ffcn(x, *fparams) * w\n    return res",
+          "    res = 0.0\n    for i in range(nsamples):\n        res = res + wsamples[i - 1] * ffcn(xsamples[i], *fparams)\n    return res", "C16-W"),
+        R("r5-integrate-skips-first", "C16", "xitorch/integrate/mcquad.py", "    res = 0.0\n    for x, w in zip(xsamples, wsamples):\n        res = res + ffcn(x, *fparams) * w\n    return res",
+          "    terms = [w * ffcn(x, *fparams) for (x, w) in zip(xsamples[1:], wsamples[1:])]\n    return sum(terms)", "C16-W"),
         # class tokens: table-driven dispatch
         R("r5-dispatch-table-ok", "C09", PF, "        if isinstance(obj, EditableModule):\n            return EditableModulePureFunction(obj, fcn)\n        elif isinstance(obj, torch.nn.Module):\n            return TorchNNPureFunction(obj, fcn)\n        else:\n            raise RuntimeError(errmsg)",
           "        for objtype, wrapper in ((EditableModule, EditableModulePureFunction), (torch.nn.Module, TorchNNPureFunction)):\n            if isinstance(obj, objtype):\n                return wrapper(obj, fcn)\n        raise RuntimeError(errmsg)", expect="silent"),
